@@ -18,6 +18,7 @@ pub fn limits(vt: &VT, shape: &Shape, v: &Value) -> Result<(u32, u32), String> {
 	let Ok(enc) = ref_enc(shape, v) else { return Ok((0, 0)) };
 	let enc = if shape.order_free() { guarded(|| (vt.encode)(v)).map_err(|p| format!("encode panicked: {}", p))? } else { enc };
 	let d = side::depth_all(shape, v);
+	let dmin = side::depth_min(shape, v);
 	let unlimited = guarded(|| (vt.decode)(&enc)).map_err(|p| format!("decode panicked: {}", p))?;
 	let Ok(un) = &unlimited else { return Err("decode of a valid encoding failed".into()) };
 	let mut first_ok: Option<u32> = None;
@@ -33,11 +34,11 @@ pub fn limits(vt: &VT, shape: &Shape, v: &Value) -> Result<(u32, u32), String> {
 				if first_ok.is_none() {
 					first_ok = Some(l);
 				}
-				if l + 1 < d {
+				if l < dmin {
 					return Err(format!(
-						"limit {} succeeds although the value nests {} levels of heap containers ({})",
+						"limit {} succeeds although the value recurses through {} levels of heap containers ({})",
 						l,
-						d,
+						dmin,
 						value_short(v)
 					));
 				}
@@ -217,7 +218,18 @@ pub fn run(tier: Tier, reg: &[VT]) -> Report {
 	let acc = par(&types, |vt, acc| {
 		heartbeat(vt.name);
 		let shape = (vt.shape)();
-		for v in domain::values(&shape, &b) {
+		let mut vals = domain::values(&shape, &b);
+		// wide-but-shallow: vectors spanning several preallocation chunks must not need a deeper limit
+		if vt.core || t {
+			if let Shape::Seq(k, e) = &shape {
+				if !e.zero_width() && !matches!(k, refmodel::SeqKind::Set) {
+					for n in [700usize, 2100, 8200, 16400, 33000] {
+						vals.push(Value::List((0..n).map(|i| domain::fill(e, i)).collect()));
+					}
+				}
+			}
+		}
+		for v in vals {
 			acc.evaluations += 1;
 			match limits(vt, &shape, &v) {
 				Ok((d, first)) => {
@@ -242,7 +254,7 @@ pub fn run(tier: Tier, reg: &[VT]) -> Report {
 			}
 		}
 	});
-	rep.part("every limit on valid encodings", "every registry type that can hold heap data x boundary values x every limit 0..=depth+2: result is the unlimited result or an error, monotone, Ok for L >= depth, Err for L < depth-1; consume-all variant", acc);
+	rep.part("every limit on valid encodings", "every registry type that can hold heap data x boundary values x every limit 0..=depth+2: result is the unlimited result or an error, monotone, Ok for L >= D_all, Err for L < D_min; wide-but-shallow vectors spanning several preallocation chunks; consume-all variant", acc);
 
 	let all: Vec<&VT> = reg.iter().collect();
 	let acc = c03::explore_all("C11", "C11.bytes", bytes_node, &all, &c03::ALL, if t { 2 } else { 1 }, u64::MAX, false);
@@ -275,7 +287,7 @@ pub fn run(tier: Tier, reg: &[VT]) -> Report {
 	rep.part("stack safety", "10^6-level deep inputs of recursive derived types (through Box, Vec, Rc, VecDeque, BTreeMap, Option<Arc>, LinkedList) x limits 0..=64, 128, 256 on a 2 MiB stack in a worker process: rejected, thread survives", acc);
 
 	rep.rule = "case = (type, value, limit) for every limit 0..=depth+2, (type, byte string, limit), (wrapper stack, program of Input calls), (recursive type, 10^6 levels, limit); \
-		the exact threshold is deliberately not pinned: Ok is required for L >= D_all (every heap container on a path counts 1), Err for L < D_all - 1. non-trivial = depth > 0"
+		the exact threshold is deliberately not pinned: Ok is required for L >= D_all (every heap container on a path counts 1), Err for L < D_min (containers the decoder must recurse through; bulk byte/number buffers and empty collections do not count). non-trivial = depth > 0"
 		.into();
 	rep.bounds = json!({"types_with_containers": types.len(), "machine_depth": depth, "deep_levels": 1000000});
 	rep
